@@ -51,6 +51,9 @@ impl Cfg {
             distinct_rule_names: true,
         }
     }
+    pub fn functions() -> Cfg {
+        Cfg { functions: true, ..Cfg::full() }
+    }
     pub fn full() -> Cfg {
         Cfg {
             keys_filter: true,
@@ -69,6 +72,7 @@ const INTS: [i64; 6] = [0, 1, 2, 5, -1, 10];
 const STRS: [&str; 8] = ["", "x", "xy", "y", "a", "1", "true", "xyz"];
 const USTRS: [&str; 4] = ["é", "日本", "x😀", "ß"];
 const FLTS: [i64; 4] = [500, 1500, 2000, -500];
+const FSTRS: [&str; 12] = ["12", "-3", "1.5", "TRUE", "false", "Hello", "a%20b", "h\u{e9}llo", "{\"k\":1}", "[1,2]", "7", "x%2Fy"];
 
 pub struct Gen<'a> {
     pub r: &'a mut Rng,
@@ -80,6 +84,9 @@ impl<'a> Gen<'a> {
         match self.r.below(10) {
             0 | 1 | 2 => vint(*self.r.pick(&INTS)),
             3 | 4 | 5 => {
+                if self.cfg.functions && self.r.chance(1, 2) {
+                    return vstr(FSTRS[self.r.below(FSTRS.len())]);
+                }
                 if self.cfg.unicode && self.r.chance(1, 4) {
                     vstr(USTRS[self.r.below(USTRS.len())])
                 } else {
@@ -412,7 +419,9 @@ impl<'a> Gen<'a> {
             let op = *self.r.pick(&binary);
             let on = (op == "eq" || op == "in") && self.r.chance(1, 3);
             let seen = if q[0]["p"] == "var" { None } else { self.peek(cur, &q) };
-            let rhs = if self.cfg.rhs_query && self.r.chance(1, 5) {
+            let rhs = if self.cfg.functions && self.r.chance(1, 8) {
+                self.fn_call(cur, vars, 1)
+            } else if self.cfg.rhs_query && self.r.chance(1, 5) {
                 let rq = self.query(cur, vars, lvl);
                 json!({"r":"q","q":rq,"all":true})
             } else {
@@ -437,7 +446,42 @@ impl<'a> Gen<'a> {
         c
     }
 
+    /// a built-in function call over a query or literal argument
+    fn fn_call(&mut self, cur: Option<&J>, vars: &[(String, Option<J>)], depth: usize) -> J {
+        let arg = if depth > 0 && self.r.chance(1, 5) {
+            self.fn_call(cur, vars, depth - 1)
+        } else if self.r.chance(1, 6) {
+            json!({"r":"val","v":vstr(FSTRS[self.r.below(FSTRS.len())])})
+        } else {
+            let q = self.query(cur, vars, 0);
+            json!({"r":"q","q":q,"all":true})
+        };
+        let f = *self.r.pick(&["count", "to_upper", "to_lower", "parse_int", "parse_float", "parse_boolean",
+                               "parse_string", "parse_char", "json_parse", "url_decode", "join", "substring",
+                               "regex_replace", "count", "parse_string", "to_upper"]);
+        match f {
+            "join" => {
+                let d = *self.r.pick(&[",", "", "--"]);
+                json!({"r":"fn","f":f,"a":[arg, {"r":"val","v":vstr(d)}]})
+            }
+            "substring" => {
+                let a = self.r.below(3) as i64;
+                let b = a + self.r.below(4) as i64;
+                json!({"r":"fn","f":f,"a":[arg, {"r":"val","v":vint(a)}, {"r":"val","v":vint(b)}]})
+            }
+            "regex_replace" => {
+                let (p, r) = *self.r.pick(&[("^(.)(.*)$", "${2}${1}"), ("^(\\w+)%20(\\w+)$", "${2} ${1}"), ("^H(.*)$", "J${1}")]);
+                json!({"r":"fn","f":f,"a":[arg, {"r":"val","v":vstr(p)}, {"r":"val","v":vstr(r)}]})
+            }
+            _ => json!({"r":"fn","f":f,"a":[arg]}),
+        }
+    }
+
     fn let_binding(&mut self, name: &str, cur: Option<&J>, vars: &[(String, Option<J>)]) -> (J, Option<J>) {
+        if self.cfg.functions && self.r.chance(2, 5) {
+            let f = self.fn_call(cur, vars, 1);
+            return (json!({"n":name,"v":f}), None);
+        }
         if self.r.chance(1, 3) {
             let v = self.literal_near(None);
             let v = self.clean_literal(v);
@@ -541,7 +585,8 @@ impl<'a> Gen<'a> {
         let mut vars: Vec<(String, Option<J>)> = Vec::new();
         let mut flets = Vec::new();
         if self.cfg.vars {
-            for i in 0..self.r.below(3) {
+            let nl = if self.cfg.functions { 1 + self.r.below(3) } else { self.r.below(3) };
+            for i in 0..nl {
                 let name = format!("g{}", i);
                 let (l, v) = self.let_binding(&name, cur, &vars);
                 flets.push(l);
